@@ -4,6 +4,7 @@ import (
 	"encoding/json"
 	"fmt"
 	"math"
+	"regexp"
 	"sort"
 	"strings"
 	"sync"
@@ -184,6 +185,7 @@ type Outcome struct {
 	Late    []any    // only when !Stable: per sink, the messages re-encoded after the drain
 	StopErr string   // error the task stopped with
 	Errs    []string // node errors (context: message)
+	ByNode  []any    // error reports per pipeline node
 	NOut    int
 }
 
@@ -233,12 +235,15 @@ func Exec(env *rt.Env, p Pipe, ins []Input) (*Outcome, error) {
 			}
 			bs = append(bs, edge.NewBufferedBatchMessage(begin, bps, edge.NewEndBatchMessage()))
 		}
-		res, err = rt.RunBatchTask(env, script, [][]edge.BufferedBatchMessage{bs})
+		res, err = runBatch(env, script, bs)
 	}
 	if err != nil {
 		return nil, fmt.Errorf("%w\nscript:\n%s", err, script)
 	}
 	o := &Outcome{Stable: true, StopErr: res.StopErr}
+	if len(o.StopErr) > 160 {
+		o.StopErr = o.StopErr[:160]
+	}
 	sinks := make([][]any, len(p.Nodes)+1)
 	late := make([][]any, len(p.Nodes)+1)
 	for i := range sinks {
@@ -276,12 +281,57 @@ func Exec(env *rt.Env, p Pipe, ins []Input) (*Outcome, error) {
 	for _, e := range res.Errors {
 		o.Errs = append(o.Errs, e.Ctx+": "+e.Msg+": "+e.Err)
 	}
+	o.ByNode = errsByNode(p, res.Errors)
 	sort.Strings(o.Errs)
 	return o, nil
 }
 
 
 var taskNo atomic.Int64
+
+func nodeFailed(env *rt.Env) bool {
+	for _, e := range env.Diag.Errors() {
+		if e.Msg == "node failed" {
+			return true
+		}
+	}
+	return false
+}
+
+var reNodeCtx = regexp.MustCompile(`node:[A-Za-z_]+(\d+)$`)
+
+// errsByNode counts the error reports of every pipeline node.  Node ids are
+// assigned in creation order: source 0, from/query 1, sink s0 2, then per
+// descriptor the node and its sink (a tap is a sink only).
+func errsByNode(p Pipe, errs []rt.ErrItem) []any {
+	idOf := map[int]int{}
+	next := 3
+	for i, n := range p.Nodes {
+		if n.K == "tap" {
+			next++
+			continue
+		}
+		idOf[next] = i
+		next += 2
+	}
+	out := make([]int, len(p.Nodes))
+	for _, e := range errs {
+		m := reNodeCtx.FindStringSubmatch(e.Ctx)
+		if m == nil {
+			continue
+		}
+		var id int
+		fmt.Sscan(m[1], &id)
+		if i, ok := idOf[id]; ok {
+			out[i]++
+		}
+	}
+	res := make([]any, len(out))
+	for i, c := range out {
+		res[i] = c
+	}
+	return res
+}
 
 // runStream is rt.RunStreamTask with a cheaper ingest fence: WritePoints only
 // enqueues on the TaskMaster's ingest edge (a goroutine forks to the tasks), so
@@ -302,13 +352,54 @@ func runStream(env *rt.Env, script string, pts []imodels.Point, srcSink string) 
 			return nil, fmt.Errorf("write: %w", err)
 		}
 	}
-	if !env.Diag.WaitCount(srcSink, len(pts), 300*time.Second) {
-		env.TM.StopTask(id)
-		return nil, fmt.Errorf("task received %d of %d points within the deadline", env.Diag.Count(srcSink), len(pts))
+	// A task whose node died (panic, returned error) stops taking points: that is
+	// an outcome to record (StopTask returns the error), not a harness failure.
+	deadline := time.Now().Add(300 * time.Second)
+	for !env.Diag.WaitCount(srcSink, len(pts), 20*time.Millisecond) {
+		if nodeFailed(env) {
+			break
+		}
+		if time.Now().After(deadline) {
+			env.TM.StopTask(id)
+			return nil, fmt.Errorf("task received %d of %d points within the deadline", env.Diag.Count(srcSink), len(pts))
+		}
 	}
 	res := &rt.PipeResult{}
 	if err := env.TM.StopTask(id); err != nil {
 		res.StopErr = err.Error()
+	}
+	res.Items = env.Diag.Items()
+	res.Errors = env.Diag.Errors()
+	return res, nil
+}
+
+// runBatch is rt.RunBatchTask, except that a task whose node died while the
+// batches were fed is an outcome (StopErr), not a harness failure: feeding stops
+// at the first batch the aborted edge refuses.
+func runBatch(env *rt.Env, script string, bs []edge.BufferedBatchMessage) (*rt.PipeResult, error) {
+	id := fmt.Sprintf("c10b%d", taskNo.Add(1))
+	env.Diag.Clear()
+	if _, err := env.StartTask(id, script, kapacitor.BatchTask, rt.DefaultDBRP); err != nil {
+		return nil, fmt.Errorf("define/start: %w", err)
+	}
+	cols := env.TM.BatchCollectors(id)
+	if len(cols) != 1 {
+		env.TM.StopTask(id)
+		return nil, fmt.Errorf("task has %d batch sources, expected 1", len(cols))
+	}
+	refused := ""
+	for _, b := range bs {
+		if err := cols[0].CollectBatch(b); err != nil {
+			refused = err.Error()
+			break
+		}
+	}
+	cols[0].Close()
+	res := &rt.PipeResult{}
+	if err := env.TM.StopTask(id); err != nil {
+		res.StopErr = err.Error()
+	} else if refused != "" {
+		res.StopErr = "batch refused: " + refused
 	}
 	res.Items = env.Diag.Items()
 	res.Errors = env.Diag.Errors()
